@@ -1619,13 +1619,22 @@ class Engine(OpsMixin):
         if isinstance(obj, Sym):
             if isinstance(obj, LazyStr):
                 obj = self.force_str(obj)
+            # a name the native type does not have is an AttributeError here too (hasattr(text, "DESCRIPTOR") is False)
             if isinstance(obj, (SymStr, str)):
+                if not hasattr(str, name):
+                    raise AttributeError(f"'str' object has no attribute '{name}'")
                 return StrMethod(obj, name)
             if isinstance(obj, SymBytes):
+                if not hasattr(bytearray, name) and not hasattr(bytes, name):
+                    raise AttributeError(f"'bytes' object has no attribute '{name}'")
                 return BytesMethod(obj, name)
             if isinstance(obj, (SymInt, SymBV)):
+                if not hasattr(int, name):
+                    raise AttributeError(f"'int' object has no attribute '{name}'")
                 return IntMethod(obj, name)
             if isinstance(obj, SymFloat):
+                if not hasattr(float, name):
+                    raise AttributeError(f"'float' object has no attribute '{name}'")
                 return FloatMethod(obj, name)
             if isinstance(obj, SymDT):
                 from . import dtmodels
